@@ -108,6 +108,13 @@ func propC01(run *Run, n int) {
 			addC01Case(run, OptPrec(0.1), "Precision(0.1)-runs", pa, pb)
 		}
 		if r.Chance(1, 15) {
+			// SetKeys: an array of keyed members BELOW AN OBJECT KEY (or inside a keyed member) in which one member changes
+			// AND the membership changes: the array is visited twice by one diff (keyed hunk, then a set hunk)
+			ka, kb := keyedUnderKeyPair(r)
+			run.Count("keyed:member-change-and-membership-change-below-a-key")
+			addC01Case(run, OptKeys("id"), "SetKeys(id)-below-key", ka, kb)
+		}
+		if r.Chance(1, 15) {
 			ta, tb := stableTwinPair(r)
 			run.Count("keyed:explicit-null-member-changes-next-to-a-member-lacking-the-key")
 			addC01Case(run, OptKeys("id", "k"), "SetKeys(id,k)-stable-twin", ta, tb)
@@ -130,6 +137,39 @@ func propC01(run *Run, n int) {
 			}
 		}
 	}
+}
+
+func keyedUnderKeyPair(r *Rng) (*Val, *Val) {
+	n := 2 + r.Intn(3)
+	ms := []*Val{}
+	for j := 0; j < n; j++ {
+		ms = append(ms, VObj("id", VNum(float64(j+1)), "v", VNum(float64(j))))
+	}
+	a := VArr(ms...)
+	b := a.Clone()
+	b.A[0].O["v"] = VNum(9) // a member changes
+	switch r.Intn(3) {
+	case 0:
+		b.A = append(b.A, VObj("id", VNum(float64(n+1)), "v", VNum(0))) // one is added
+	case 1:
+		b.A = b.A[:len(b.A)-1] // one is removed
+	default:
+		b.A[len(b.A)-1] = VObj("id", VNum(float64(n+2)), "v", VNum(3)) // one is replaced by another identity
+	}
+	if r.Chance(1, 2) {
+		for i := len(b.A) - 1; i > 0; i-- {
+			j := r.Intn(i + 1)
+			b.A[i], b.A[j] = b.A[j], b.A[i]
+		}
+	}
+	switch r.Intn(3) {
+	case 0:
+		return VObj("items", a), VObj("items", b)
+	case 1:
+		return VObj("spec", VObj("items", a)), VObj("spec", VObj("items", b))
+	}
+	// inside a keyed member of an outer keyed array
+	return VArr(VObj("id", VStr("p"), "ports", a)), VArr(VObj("id", VStr("p"), "ports", b))
 }
 
 // stableTwinPair: under SetKeys(id,k) an array holds a member that LACKS k and a member with the same id that holds
